@@ -298,3 +298,76 @@ def document_with_siblings_roundtrip(nb: int, pb: int, na: int) -> bool:
         return False
     each = _L(T_XML17['ser_each'].evaluate(_C(doc)))
     return each[1:] == ['<x>t</x>', '<y/>'] or each[1:] == ['<x>t</x>', '<y />']
+
+
+# --- added after the round-4 baseline reports: serialization parameters and malformed JSON-XML never escape as bare Python exceptions --------
+
+T_SER17 = parse_all({'enc': 'serialize($v, map{"method": $m, "encoding": $e})', 'plain': 'serialize($v, map{"method": $m})',
+                     'bool': 'xml-to-json(parse-xml($t))', 'frag': 'serialize(parse-xml-fragment($t))', 'fragtext': 'serialize(parse-xml-fragment($t)//text())'})
+ENCODINGS = ('utf-8', 'UTF-16', 'ascii', 'US-ASCII', 'latin-1', 'cp037', 'utf-32', 'nope', '', 'x-unknown-7')
+_KNOWN_ENC = (True, True, True, True, True, True, True, False, False, False)
+SER_VALUES = ('é', 'a/b', '€"x', 'plain')
+BOOL_TEXTS = ('true', 'false', '1', '0', ' true ', 'yes', '', 'TRUE', '2', 'tru e')
+_BOOL_OK = ('true', 'false', 'true', 'false', 'true', None, None, None, None, None)
+FRAGS = ('a<b/>c', 'x', '<b>t</b>tail', 'a<b>c</b>d', '<b/>')
+
+
+@ob(budget=240, bound='serialize(v, map{method, encoding}) for v from 4 strings, method json / text, encoding from a table of 10 names (7 known to Python, 3 unknown); '
+                      'xml-to-json of a boolean element with a text from a table of 10; serialize of 5 XML fragments with top-level text (all indices chosen by the '
+                      'solver): a known encoding gives the same string as no encoding parameter (the result is a string, no encoding phase), an unknown one '
+                      'SEPM0016; an invalid boolean FOJS0006; fragments serialize to their text; never an exception that is not an ElementPathError',
+    funcs=['elementpath/serialization.py:get_serialization_params', 'elementpath/serialization.py:serialize_to_json', 'elementpath/serialization.py:serialize_to_xml',
+           'elementpath/xpath31/_xpath31_functions.py:xml-to-json'])
+def serialization_parameters_and_errors(what: int, i: int, j: int, js: bool) -> bool:
+    """
+    pre: 0 <= what <= 2 and 0 <= i <= 9 and 0 <= j <= 3
+    post: _
+    """
+    from harness.common import err_code
+    i = [k for k in range(10) if k == i][0]
+    if what == 0:
+        v, m = SER_VALUES[[k for k in range(4) if k == j][0]], 'json' if js else 'text'
+        plain = ev(T_SER17['plain'], v=v, m=m)
+        try:
+            r = ev(T_SER17['enc'], v=v, m=m, e=ENCODINGS[i])
+        except ElementPathError as e:
+            return not _KNOWN_ENC[i] and err_code(e) == 'SEPM0016'
+        return _KNOWN_ENC[i] and r == plain
+    if what == 1:
+        t = '<boolean xmlns="http://www.w3.org/2005/xpath-functions">%s</boolean>' % BOOL_TEXTS[i]
+        try:
+            r = ev(T_SER17['bool'], t=t)
+        except ElementPathError as e:
+            return _BOOL_OK[i] is None and err_code(e) == 'FOJS0006'
+        return r == [_BOOL_OK[i]]
+    t = FRAGS[i % 5]
+    r = ev(T_SER17['frag'], t=t)
+    r2 = ev(T_SER17['fragtext'], t=t)
+    want = {'a<b/>c': ('a<b />c', 'ac'), 'x': ('x', 'x'), '<b>t</b>tail': ('<b>t</b>tail', 'ttail'), 'a<b>c</b>d': ('a<b>c</b>d', 'acd'), '<b/>': ('<b />', '')}[t]
+    return r == [want[0]] and r2 == [want[1]]
+
+
+from elementpath.xpath31 import XPath31Parser as _P31c17  # noqa: E402
+from harness.common import pyet as _pyet17  # noqa: E402
+_ET17 = _pyet17()
+_NS_TABLE = ({'ns1': 'u'}, {'ns0': 'u', 'p': 'v'}, {'p': 'u'}, {'ns12': 'w', 'q': 'u'})
+T_NS17 = tuple(_P31c17(namespaces=ns).parse('serialize(.)') for ns in _NS_TABLE)
+T_NS17_CTX = P31.parse('serialize(.)')
+
+
+@ob(budget=120, bound='serialize(.) on <a xmlns="u"><b/></a> with the in-scope namespaces of the parser or of the context from a table of 4 (two use prefixes of the '
+                      'form ns<digits>, which ElementTree reserves; index chosen by the solver): a string that names both elements, never a bare ValueError',
+    funcs=['elementpath/xpath30/_xpath30_functions.py:evaluate__serialize_function', 'xml.etree.ElementTree.register_namespace'])
+def serialize_with_reserved_prefixes(i: int, in_context: bool) -> bool:
+    """
+    pre: 0 <= i <= 3
+    post: _
+    """
+    i = [k for k in range(4) if k == i][0]
+    root = _ET17.XML('<a xmlns="u"><b/></a>')
+    if in_context:
+        r = T_NS17_CTX.evaluate(XPathContext(root, namespaces=_NS_TABLE[i]))
+    else:
+        r = T_NS17[i].evaluate(XPathContext(root))
+    r = r[0] if isinstance(r, list) else r
+    return isinstance(r, str) and r.count('a') >= 1 and ('b />' in r or 'b/>' in r) and '"u"' in r
